@@ -83,6 +83,33 @@ def project_mb(raw, nthreads, dyn_initial=None):
     out.append('.')
     return out
 
+def project_qsbr(raw, nthreads):
+    """implementation trace of src/urcu-qsbr.c (64-bit single counter) -> action lines of the qsbr model (Gp/GpQsbrExec.v).  Counter values are mapped to model units
+    (0 stays 0 = offline; 1, 3, 5, ... = 1st, 2nd, 3rd value of the global counter).  L = a load of the global counter by a reader (online, quiescent state, the
+    online at the end of its own synchronize_rcu), S / F = store to / flush of its reader word, N = every fence, R = an operation returns, U = the incremented
+    global counter becomes visible, C = the leader reads a reader word during its wait, E = the leader releases the grace-period lock"""
+    gm = lambda v: (int(v, 0) + 1) // 2
+    out = ['T ' + ' '.join(str(i) for i in range(nthreads))]
+    lead = {}; last = {}; pend = {}
+    for p in events(raw):
+        t, k = p[0], p[1]; loc = p[2] if len(p) > 2 else ''
+        if int(t) >= nthreads: continue
+        if k == 'load' and loc == 'gp.ctr+0': out.append('L %s %d' % (t, gm(p[5])))
+        elif k == 'store' and loc == 'rd%s+0' % t:
+            v = gm(p[3][2:]); red = (v == 0 and last.get(t, 1) == 0)      # rcu_unregister_thread / a second offline: 0 stored over 0 - not an action of the model
+            pend.setdefault(t, []).append(red); last[t] = v
+            if not red: out.append('S %s %d' % (t, v))
+        elif k == 'flush' and loc == 'rd%s+0' % t:
+            red = pend.get(t) and pend[t].pop(0)
+            if not red: out.append('F %s %d' % (t, gm(p[3][2:])))
+        elif k == 'mb': out.append('N %s' % t)
+        elif k == 'ret' and p[2] in ('online', 'qs', 'offline', 'sync'): out.append('R %s' % t); lead.pop(t, None)
+        elif k == 'flush' and loc == 'gp.ctr+0': out.append('U %d' % gm(p[3][2:])); lead[t] = True
+        elif k == 'load' and re.match(r'rd\d+\+0$', loc) and lead.get(t): out.append('C %s %d' % (loc[2:-2], gm(p[5])))
+        elif k == 'unlock' and loc == 'gp_lock+0' and lead.get(t): out.append('E'); lead[t] = False
+    out.append('.')
+    return out
+
 def timing_oracle(raw):
     """every section whose outermost lock returned before a synchronize_rcu() call must have begun its outermost unlock before
     that call returns"""
